@@ -593,7 +593,7 @@ macro_rules! is_itc {
         let prev = indexing!(@prevc $self, $index);
         let next = indexing!(@nextc $self, $index);
         let slc = $self.byte.slc;
-        slc.get(prev).map_or(false, |&x| !$self.is_digit(x)) ||
+        slc.get(prev).map_or(false, |&x| $self.is_digit(x)) ||
             slc.get(next).map_or(true, |&x| !$self.is_digit(x))
     }};
 
